@@ -5,6 +5,8 @@ Decided by the specification (TLC evaluates exact values, the trace specs judge 
   ShellPartition  exclude_dofs_matrix / calc_full_c on TLC-enumerated integer cases, seeded dyadic cases and real k0
   ShellGeometry   _rebuild: (r1, r2, H, L) from every admissible subset, Nxxtop from Fc, prescribed-amplitude lists
   ShellLoads      calc_fext(inc) entry by entry on the quarter-turn lattice (exact shape functions)
+  ShellObject     the object's life: add_force/add_SPL/SPLA/from_DB/_clear_matrices/lb/get_size book-keeping, and every query
+                  after another query / a change of one attribute / another object, judged as a fresh identical object
 Observed (numbers produced by the package, structure and verdict by the trace spec):
   point forces / torque anywhere against ConeCyl.uvw at unit amplitudes; K_uu c_u = f_u after static()."""
 import contextlib
@@ -115,31 +117,39 @@ def part_exclude_event(eid, K, xs, judge=("kuu", "kuk", "kku", "kkk"), via="attr
     cc = cc_for_size(3)
     cc.excluded_dofs = list(xs)
     raised = "no"
+    Kin = np.array(K, dtype=float)
+    if len(K) % 2:
+        from scipy.sparse import coo_matrix as _coo      # the API takes dense arrays and COO matrices
+        Kin = _coo(Kin)
+    Kcopy = Kin.toarray().copy() if hasattr(Kin, "toarray") else Kin.copy()
     try:
-        out = cc.exclude_dofs_matrix(np.array(K, dtype=float), return_kkk=True, return_kku=True, return_kuk=True)
+        out = cc.exclude_dofs_matrix(Kin, return_kkk=True, return_kku=True, return_kuk=True)
         obs = dict(kuu=dy_mat(out["kuu"].toarray()) if out["kuu"].shape[0] else [],
                    kuk=dy_mat(out["kuk"]), kku=dy_mat(out["kku"]), kkk=dy_mat(out["kkk"]))
     except Exception as ex:      # an exception of the code under test is an observation: nothing returned
         raised = type(ex).__name__
         obs = dict(kuu=[[[1, [1], 0]]], kuk=[[[1, [1], 0]]], kku=[], kkk=[])
+    after = Kin.toarray() if hasattr(Kin, "toarray") else Kin
     return dict(id=eid, kind="exclude", K=dy_mat(K), xs=list(xs), judge=list(judge), obs=obs, via=via,
-                n=len(K), raised=raised)
+                n=len(K), raised=raised, inputs_unchanged=bool(after.shape == Kcopy.shape and np.array_equal(after, Kcopy)))
 
 
-def part_fullc_event(eid, n, xs, cks, inc, vec):
+def part_fullc_event(eid, n, xs, cks, inc, vec, cc=None):
     """cks, inc, vec: Fractions (exactly representable)."""
-    cc = cc_for_size(n)
+    cc = cc or cc_for_size(n)
     if cc.get_size() != n:
         return None
     cc.excluded_dofs = list(xs)
     cc.excluded_dofs_ck = [float(c) for c in cks]
     raised = "no"
+    cin = np.array([float(v) for v in vec], dtype=float)
+    ccopy = cin.copy()
     try:
-        got = cc.calc_full_c(np.array([float(v) for v in vec], dtype=float), inc=float(inc))
+        got = cc.calc_full_c(cin, inc=float(inc))
     except Exception as ex:
         raised, got = type(ex).__name__, []
     return dict(id=eid, kind="fullc", size=n, xs=list(xs), cks=[rat(c) for c in cks], inc=rat(inc),
-                cu=[rat(v) for v in vec], obs=dy_list(got), raised=raised)
+                cu=[rat(v) for v in vec], obs=dy_list(got), raised=raised, inputs_unchanged=bool(np.array_equal(cin, ccopy)))
 
 
 def part_k0_events(eid0, tier, rng):
@@ -162,7 +172,7 @@ def part_k0_events(eid0, tier, rng):
             k0 = cc.k0.toarray()
             ev = dict(id=eid0 + len(evs), kind="exclude", K=dy_mat(k0), xs=[int(d) for d in cc.excluded_dofs],
                       judge=["kuu", "kuk"], via="_calc_linear_matrices(%s,pdC=%s,pdT=%s)" % (model, pdC, pdT),
-                      n=k0.shape[0],
+                      n=k0.shape[0], inputs_unchanged=True,
                       obs=dict(kuu=dy_mat(cc.k0uu.toarray()), kuk=dy_mat(cc.k0uk), kku=[], kkk=[]))
             evs.append(ev)
     return evs
@@ -263,6 +273,14 @@ def partition_section(rep, tier, seed, rng, prep=None):
         e = part_fullc_event(len(events), n, xs, cks, inc, vec)
         if e is not None:
             events.append(e)
+    # every bc family: insertion into a reduced vector of that family's size, scaling of a full one
+    for model in MODELS:
+        cc = new_cc(model, m1=2, m2=1, n2=2)
+        n = int(cc.get_size())
+        for xs in ([2], [1, 2], [0, 2], [0, 1, 2], [2, 0]):
+            for full in (False, True):
+                vec = [F(k + 1, 4) for k in range(n if full else n - len(xs))]
+                events.append(part_fullc_event(len(events), n, xs, [F(7 * (d + 1), 8) for d in xs], F(3, 2), vec, cc=cc))
     events += part_k0_events(len(events), tier, rng)
     for k, e in enumerate(events):
         e["id"] = k
@@ -316,18 +334,19 @@ def geo_event(eid, d, expect="built"):
     """d: dict(geo={r1,r2,H,L: Fraction|None}, s, c, n2, Fc, nxxIn (None|('scalar',q)|('array',[q..])), xiLA, uTM,
     thetaTdeg, tanBeta, pdC, pdT, pdLA, nreb).  Sets the inputs on a fresh ConeCyl and calls _rebuild nreb times."""
     cc = new_cc("clpt_donnell_bc1", m1=1, m2=1, n2=d["n2"])
+    num = (lambda v: int(v) if (eid % 3 == 0 and Fraction(v).denominator == 1) else float(v))    # ints and floats
     for k, v in d["geo"].items():
         if v is not None:
-            setattr(cc, k, float(v))
+            setattr(cc, k, num(v))
     cc.alphadeg = deg_of(d["s"], d["c"])
     if d["Fc"] is not None:
-        cc.Fc = float(d["Fc"])
+        cc.Fc = num(d["Fc"])
     if d["nxxIn"] is not None:
-        cc.Nxxtop = float(d["nxxIn"][1]) if d["nxxIn"][0] == "scalar" else np.array([float(v) for v in d["nxxIn"][1]])
+        cc.Nxxtop = num(d["nxxIn"][1]) if d["nxxIn"][0] == "scalar" else np.array([float(v) for v in d["nxxIn"][1]])
     if d["xiLA"] is not None:
         cc.xiLA = float(d["xiLA"])
     cc.uTM = float(d["uTM"])
-    cc.thetaTdeg = float(d["thetaTdeg"])
+    cc.thetaTdeg = num(d["thetaTdeg"])
     cc.betadeg = math.degrees(math.atan(float(d["tanBeta"])))
     cc.pdC, cc.pdT, cc.pdLA = d["pdC"], d["pdT"], d.get("pdLA", True)
     raised = "no"
@@ -394,6 +413,8 @@ def geometry_section(rep, tier, seed, rng):
     for _ in range(60 if tier == "quick" else 800):
         s, c = rng.choice(PYTH_RND)
         r2, L = dyf(rng, 1, 300, 3), dyf(rng, F(1, 2), 600, 3)
+        if rng.random() < 0.15:
+            L = r2 / c                      # coincidence H = r2
         true = dict(r1=r2 + L * s, r2=r2, H=L * c, L=L)
         while True:
             S = [k for k in keys if rng.random() < 0.55]
@@ -474,10 +495,16 @@ def shell_cc(d):
     cc.betadeg = math.degrees(math.atan(float(d["tanBeta"])))
     cc.pdC, cc.pdT = d["pdC"], d["pdT"]
     cc.P, cc.P_inc, cc.T, cc.T_inc = float(d["P"]), float(d["Pinc"]), float(d["T"]), float(d["Tinc"])
-    for f in d["forces"]:
-        cc.add_force(float(f["x"]), float(f["thetadeg"]), *[float(v) for v in f["F"]])
-    for f in d["forcesInc"]:
-        cc.add_force(float(f["x"]), float(f["thetadeg"]), *[float(v) for v in f["F"]], increment=True)
+    form = d.get("form", 0)           # every container form the API accepts: add_force, lists of tuples / numpy rows / ints
+    if form == 0:
+        for f in d["forces"]:
+            cc.add_force(float(f["x"]), float(f["thetadeg"]), *[float(v) for v in f["F"]])
+        for f in d["forcesInc"]:
+            cc.add_force(float(f["x"]), float(f["thetadeg"]), *[float(v) for v in f["F"]], increment=True)
+    else:
+        cc.forces = [force_row(f, form) for f in d["forces"]]
+        cc.forces_inc = tuple(force_row(f, form) for f in d["forcesInc"])
+        d["_held"] = [(r, np.array(r, dtype=float).copy()) for r in list(cc.forces) + list(cc.forces_inc)]
     return cc
 
 
@@ -515,6 +542,8 @@ def load_event(eid, d, inc, kuk=None, observed=False, pre=0):
             _K0_CACHE[key] = (cc.k0, cc.k0uk, cc.k0uu)
     except Exception as ex:          # the trace spec says whether refusing is what the module prescribes
         raised = type(ex).__name__
+    if any(not np.array_equal(np.array(r, dtype=float), c) for r, c in d.pop("_held", [])):
+        raised = "CallerContainerModified"          # the module never prescribes this: the trace spec rejects the event
     e = dict(id=eid, kind="fext", mode="observed" if observed else "lattice", model=d["model"], m1=d["m1"], m2=d["m2"],
              n2=d["n2"], geo={k: opt(v) for k, v in d["geo"].items()}, ang=dict(s=rat(d["s"]), c=rat(d["c"])),
              Fc=opt(d["Fc"]), xiLA=opt(d["xiLA"]), uTM=rat(d["uTM"]), thetaTdeg=rat(d["thetaTdeg"]),
@@ -582,13 +611,20 @@ def random_load_def(rng, lattice_forces=False):
     m1, m2, n2 = rng.randint(1, 4), rng.randint(1, 2), rng.randint(1, 3)
     s, c = rng.choice(PYTH_RND)
     r2, L = dyf(rng, 2, 300, 2), dyf(rng, 1, 500, 2)
+    coin = rng.randint(0, 5)              # coincidences between unrelated parameters
+    if coin == 0:
+        m1 = n2
+    elif coin == 1:
+        L = r2 / c                        # H = r2
+    elif coin == 2:
+        m2 = n2 = m1 = 2
     geo = dict(r1=None, r2=r2, H=None, L=L)
     if rng.random() < 0.3:
         geo = dict(r1=r2 + L * s, r2=None, H=L * c, L=None)
 
     def force():
         if lattice_forces:
-            p, q = rng.randint(0, 2), rng.randint(-2, 5)
+            p, q = rng.choice([0, 0, 1, 2, 2]), rng.choice([-2, -1, 0, 0, 1, 2, 3, 4, 4, 5])     # x = 0 / L, theta = 0 / 360 often
             return dict(F=[dyf(rng, -20, 20, 2) for _ in range(3)], p=p, q=q, x=L * p / 2, thetadeg=F(90 * q))
         return dict(F=[dyf(rng, -20, 20, 2) for _ in range(3)], x=L * dyf(rng, 0, 1, 5), thetadeg=dyf(rng, -180, 360, 3))
     pdC = rng.random() < 0.3
@@ -644,6 +680,7 @@ def loads_section(rep, tier, seed, rng):
     if len(reqs) > limit:
         reqs = rng.sample(reqs, limit)
     for k, (d, inc) in enumerate(reqs):
+        d["form"] = k % 4
         events.append(load_event(len(events), d, inc, pre=1 if k % 7 == 0 else 0))
     n_lat = len(events)
     # direction B: seeded shells / loads off the lattice: forces on lattice points (decided) and anywhere (observed)
@@ -745,6 +782,454 @@ def loads_section(rep, tier, seed, rng):
 
 
 # ----------------------------------------------------------------------------------------------------
+# 4. the object's life: queries after changes / other queries / other objects, judged as a fresh identical object
+
+OBJ_DEVS = ["KF_C18_DerivedGeometryKept", "KF_C18_LoadDataFrozen", "KF_C18_StiffnessCacheKept",
+            "KF_C18_NxxtopDiscardedOnClear", "KF_C18_LbSetsFc", "KF_C18_SPLAUsesTimeClock", "KF_C18_PlyListsKept"]
+STACKS = {0: [0, 45, -45], 1: [0, 30, -30], 9: None}
+PLYT = {0: 0.125, 1: 0.25}
+
+
+def tv(v):
+    """typed JSON value of a step argument"""
+    if isinstance(v, bool):
+        return dict(t="bool", v=v)
+    if isinstance(v, int):
+        return dict(t="int", v=v)
+    if isinstance(v, str):
+        return dict(t="str", v=v)
+    if isinstance(v, Fraction):
+        return dict(t="rat", v=rat(v))
+    if isinstance(v, tuple) and len(v) == 2:
+        return dict(t="ang", v=dict(s=rat(v[0]), c=rat(v[1])))
+    if isinstance(v, list) and v and isinstance(v[0], dict):
+        return dict(t="forces", v=[dict(x=rat(f["x"]), thetadeg=rat(f["thetadeg"]), F=[rat(c) for c in f["F"]]) for f in v])
+    if isinstance(v, list):
+        return dict(t="rats", v=[rat(c) for c in v])
+    raise ValueError("untyped step value %r" % (v,))
+
+
+def S(attr, val):
+    return dict(op="set", attr=attr, val=val)
+
+
+def step_json(s):
+    j = dict(op=s["op"])
+    for k, v in s.items():
+        if k == "op":
+            continue
+        if k.startswith("_"):
+            j[k] = v                      # harness-side detail of the call (data-base key, the other object): kept for replay
+        elif k == "val":
+            j[k] = tv(v)
+        elif k in ("x", "thetadeg", "PL", "pt", "inc"):
+            j[k] = rat(v)
+        elif k == "F":
+            j[k] = [rat(c) for c in v]
+        elif k == "PLs":
+            j[k] = [rat(c) for c in v]
+        elif k == "entry":
+            j[k] = {a: tv(b) for a, b in v.items()}
+        else:
+            j[k] = v
+    return j
+
+
+def untv(x):
+    t, v = x["t"], x["v"]
+    if t == "rat":
+        return from_rat(v)
+    if t == "rats":
+        return [from_rat(c) for c in v]
+    if t == "ang":
+        return (from_rat(v["s"]), from_rat(v["c"]))
+    if t == "forces":
+        return [dict(x=from_rat(f["x"]), thetadeg=from_rat(f["thetadeg"]), F=[from_rat(c) for c in f["F"]]) for f in v]
+    return v
+
+
+def step_unjson(j):
+    s = dict(op=j["op"])
+    for k, v in j.items():
+        if k == "op":
+            continue
+        if k == "val":
+            s[k] = untv(v)
+        elif k in ("x", "thetadeg", "PL", "pt", "inc"):
+            s[k] = from_rat(v)
+        elif k in ("F", "PLs"):
+            s[k] = [from_rat(c) for c in v]
+        elif k == "entry":
+            s[k] = {a: untv(b) for a, b in v.items()}
+        else:
+            s[k] = v
+    return s
+
+
+def force_row(f, form):
+    row = [float(f["x"]), math.radians(float(f["thetadeg"]))] + [float(c) for c in f["F"]]
+    if form == 1:
+        return tuple(row)
+    if form == 2:
+        return np.array(row)
+    if form == 3 and all(float(v).is_integer() for v in row[:1] + row[2:]):
+        return [int(row[0]), row[1]] + [int(v) for v in row[2:]]
+    return row
+
+
+class Held:
+    """containers the caller handed over, with copies to compare afterwards"""
+
+    def __init__(self):
+        self.items = []
+
+    def keep(self, name, obj):
+        self.items.append((name, obj, np.array(obj, dtype=float).copy()))
+
+    def changed(self):
+        return sorted({n for n, o, c in self.items
+                       if np.array(o, dtype=float).shape != c.shape or not np.array_equal(np.array(o, dtype=float), c)})
+
+
+def apply_step(cc, s, held, form=0):
+    op = s["op"]
+    if op == "set":
+        a, v = s["attr"], s["val"]
+        if a in ("r1", "r2", "H", "L", "Fc", "xiLA", "uTM", "thetaTdeg"):
+            setattr(cc, a, float(v))
+            if a in ("Fc", "xiLA"):      # the object adopts a given Nxxtop array and writes Nxxtop[0] / [2] from Fc / MLA into it
+                held.items = [it for it in held.items if it[0] != "Nxxtop"]
+        elif a in ("P", "T"):
+            setattr(cc, a, float(v))
+        elif a == "Pinc":
+            cc.P_inc = float(v)
+        elif a == "Tinc":
+            cc.T_inc = float(v)
+        elif a == "Nxxtop":
+            arr = np.array([float(c) for c in v])
+            cc.Nxxtop = arr
+            if cc.Fc is None and cc.xiLA is None:
+                held.keep("Nxxtop", arr)
+        elif a == "NxxtopScalar":
+            cc.Nxxtop = float(v)
+        elif a == "ang":
+            cc.alphadeg = deg_of(*v)
+        elif a == "tanBeta":
+            cc.betadeg = math.degrees(math.atan(float(v)))
+        elif a in ("model", "m1", "m2", "n2", "pdC", "pdT"):
+            setattr(cc, a, v)
+        elif a == "stiff":
+            cc.stack = list(STACKS[v])
+        elif a == "plyt":
+            cc.plyt = PLYT[v]
+        elif a == "plyts":
+            cc.plyts = [0.5] * len(cc.stack)
+        elif a in ("forces", "forcesInc"):
+            rows = [force_row(f, (form + k) % 4) for k, f in enumerate(v)]
+            for r in rows:
+                held.keep(a, r)
+            setattr(cc, "forces" if a == "forces" else "forces_inc", rows)
+        else:
+            raise ValueError(a)
+    elif op == "add_force":
+        args = [float(s["x"]), float(s["thetadeg"])] + [float(c) for c in s["F"]]
+        if form == 3:
+            args = [int(v) if float(v).is_integer() else v for v in args]
+        cc.add_force(*args, increment=s["increment"])
+    elif op == "add_SPL":
+        cc.add_SPL(float(s["PL"]), pt=float(s["pt"]), thetadeg=float(s["thetadeg"]), increment=s["increment"])
+    elif op == "clear":
+        cc._clear_matrices()
+    elif op == "SPLA":
+        cc.SPLA([float(v) for v in s["PLs"]], NLgeom=False)
+    elif op == "from_DB":
+        cc.from_DB(s["_name"])
+    elif op == "rebuild":
+        cc._rebuild()
+    elif op == "calc_k0":
+        cc.calc_k0(silent=True)
+    elif op == "calc_fext":
+        return cc.calc_fext(inc=float(s["inc"]), silent=True)
+    elif op == "static":
+        return cc.static(silent=True)[0]
+    elif op == "lb":
+        cc.num_eigvalues = 2
+        cc.lb()
+    elif op == "uvw":                      # after a calc_fext step of the history (sizes, excluded_dofs known)
+        n = cc.get_size() - len(cc.excluded_dofs)
+        cc.uvw(np.ones(n), gridx=3, gridt=3, inc=0.25)
+    elif op == "calc_kT":                  # after a static step of the history; k0 exists, so calc_kT reads but keeps the state
+        cc.nx, cc.nt = 8, 8
+        cc.calc_kT(np.array(cc.cs[0]), inc=0.5, silent=True)
+    elif op == "other":
+        oc = new_cc(s["_model"], m1=1, m2=1, n2=1)
+        oc.r2, oc.L, oc.alphadeg, oc.thetaTdeg = 5., 3., s.get("_alphadeg", 0.), 20.
+        oc.add_force(1.5, 90., 1., 2., 3.)
+        oc.calc_fext(inc=0.75, silent=True)
+        oc.static(silent=True)
+    elif op in ("none", "get_size", "forces"):
+        pass
+    else:
+        raise ValueError(op)
+    return None
+
+
+def study_event(eid, steps0, steps, query, form=0):
+    """one real object: definition steps, history, final query; plus the stiffness data of the fresh identical object"""
+    held = Held()
+    cc = new_cc("clpt_donnell_bc1", m1=1, m2=1, n2=1)
+    fresh = new_cc("clpt_donnell_bc1", m1=1, m2=1, n2=1)
+    hf = Held()
+    for s in steps0:
+        apply_step(cc, s, held, form)
+        apply_step(fresh, s, hf, form)
+    for s in steps:
+        try:
+            apply_step(cc, s, held, form)
+        except Exception:
+            pass                          # a refused call inside the history: the module leaves the object as it was
+        if s["op"] in ("set", "add_force", "add_SPL", "from_DB"):
+            try:
+                apply_step(fresh, s, hf, form)
+            except Exception:
+                pass
+    obs = dict(raised="no")
+    try:
+        r = apply_step(cc, query, held, form)
+        q = query["op"]
+        if q in ("calc_fext", "static"):
+            obs["vec"] = dy_list(r)
+        elif q == "get_size":
+            obs["size"] = int(cc.get_size())
+        elif q == "rebuild":
+            obs.update(r1=dyadic(cc.r1), r2=dyadic(cc.r2), H=dyadic(cc.H), L=dyadic(cc.L), nxx=dy_list(cc.Nxxtop),
+                       xs=[int(x) for x in cc.excluded_dofs], cks=dy_list(cc.excluded_dofs_ck))
+        elif q in ("calc_k0", "lb"):
+            obs["kuu"] = dy_mat(cc.k0uu.toarray())
+        elif q == "forces":
+            obs["forces"] = [dy_list(f) for f in cc.forces]
+            obs["forcesInc"] = [dy_list(f) for f in cc.forces_inc]
+    except Exception as ex:
+        obs = dict(raised=type(ex).__name__)
+    e = dict(id=eid, kind="study", steps0=[step_json(s) for s in steps0], steps=[step_json(s) for s in steps],
+             query=step_json(query), obs=obs, containers_changed=held.changed(), form=form,
+             kuk_fresh=[], kuk_used=[], kuu_fresh=[], kuu_used=[])
+    if query["op"] in ("calc_fext", "static", "calc_k0", "lb"):
+        try:
+            if query["op"] == "lb":
+                apply_step(fresh, query, hf, form)
+            else:
+                fresh.calc_k0(silent=True)
+            e["kuk_fresh"], e["kuu_fresh"] = dy_mat(fresh.k0uk), dy_mat(fresh.k0uu.toarray())
+        except Exception:
+            pass
+        if cc.k0uk is not None:
+            e["kuk_used"], e["kuu_used"] = dy_mat(cc.k0uk), dy_mat(cc.k0uu.toarray())
+    return e
+
+
+FORCE1 = dict(x=F(0), thetadeg=F(90), F=[F(2), F(-3), F(5)])
+REAL_SIZES = (3, 2, 2)          # the bounded model uses (1,1,1); replays use a series on which lb() can run
+ARR0, ARR1 = [F(2), F(1, 2), F(-3), F(7), F(-1, 4)], [F(1), F(1), F(4), F(0), F(2)]
+ANG = dict(cyl=(F(0), F(1)), cone=(F(3, 5), F(4, 5)))
+
+
+def base_steps(model, ang, pdT, geo, axial):
+    s = [S("m1", REAL_SIZES[0]), S("m2", REAL_SIZES[1]), S("n2", REAL_SIZES[2]), S("thetaTdeg", F(30)), S("forces", [FORCE1]), S("Pinc", F(3)),
+         S("model", model), S("ang", ang), S("pdT", pdT), S("T", F(5))]
+    if geo == "r2L":
+        s += [S("r2", F(4)), S("L", F(5, 2))]
+    else:
+        s += [S("r1", 4 + F(5, 2) * ang[0]), S("H", F(5, 2) * ang[1])]
+    if axial == "Fc":
+        s += [S("Fc", F(100)), S("xiLA", F(1, 8))]
+    elif axial == "array":
+        s += [S("Nxxtop", list(ARR0))]
+    elif axial == "scalar":
+        s += [S("NxxtopScalar", F(3, 4))]
+    return s
+
+
+def step_from_tla(v):
+    op = v["op"]
+    if op == "set":
+        a, x = v["attr"], v["val"]
+        if a in ("m1", "m2", "n2"):
+            return S(a, x - 1 + REAL_SIZES[("m1", "m2", "n2").index(a)])          # "one more term than the base"
+        if a in ("model", "stiff", "plyt", "plyts", "pdC", "pdT"):
+            return S(a, x)
+        if a == "ang":
+            return S(a, (from_rat(x["s"]), from_rat(x["c"])))
+        if a == "Nxxtop":
+            return S(a, list(ARR1))
+        return S(a, from_rat(x))
+    if op == "add_force":
+        return dict(op=op, x=from_rat(v["x"]), thetadeg=from_rat(v["thetadeg"]), F=[from_rat(c) for c in v["F"]],
+                    increment=v["increment"])
+    if op == "add_SPL":
+        return dict(op=op, PL=from_rat(v["PL"]), pt=from_rat(v["pt"]), thetadeg=from_rat(v["thetadeg"]), increment=v["increment"])
+    if op == "SPLA":
+        return dict(op=op, PLs=[from_rat(c) for c in v["PLs"]])
+    if op == "calc_fext":
+        return dict(op=op, inc=from_rat(v["inc"]))
+    return dict(op=op)
+
+
+def db_entries():
+    from compmech.conecyl.conecylDB import ccs
+    out = []
+    for name in sorted(ccs):
+        e = ccs[name]
+        if "alphadeg" in e and e["alphadeg"] != 0:
+            continue                               # exact trigonometry only for the cylinders of the data base
+        ent = dict(stiff=9)
+        for k in ("r1", "r2", "H", "L"):
+            if k in e:
+                ent[k] = Fraction(float(e[k]))
+        out.append((name, ent))
+    return out
+
+
+def object_section(rep, tier, seed, rng):
+    devs = "{%s}" % ",".join('"%s"' % d for d in OBJ_DEVS if d != "KF_C18_SPLAUsesTimeClock")      # repaired upstream
+    walls = {}
+    histories = None
+    for name, dv in (("code", devs), ("property", "{}")):
+        cfg = ("SPECIFICATION EmitSpec\nCONSTANTS Tier = \"%s\"\nDev = %s\nINVARIANT HistoryIndependent\nINVARIANT ForcesBookkeeping\n"
+               "INVARIANT SizeFormula\nCHECK_DEADLOCK FALSE\n" % (tier, dv))
+        mc = run_tlc("c18-mco", "MC_ShellObject", cfg, workers=8, timeout=3000, heap="4g")
+        rep.add_tlc("MC_ShellObject(Dev=%s)" % name, mc)
+        if not mc.ok:
+            rep.machinery("TLC on MC_ShellObject (%s semantics) failed (rc=%s): %s %s" % (name, mc.rc, mc.errors(), mc.out[-1200:]))
+            return
+        if name == "code":
+            histories = [v[1] for v in printed_values(mc.out, "REQ")]
+        elif any(not v[1]["same"] for v in printed_values(mc.out, "REQ")):
+            rep.machinery("MC_ShellObject with no deviation: an answer depends on the history")
+    sig_seen = set()
+    for h in histories:
+        sig_seen |= set(h["sigs"])
+    if not set(OBJ_DEVS) - {"KF_C18_SPLAUsesTimeClock"} <= sig_seen:
+        rep.machinery("vacuity: signatures never reached in the object model: %s" % sorted(set(OBJ_DEVS) - sig_seen))
+    refreeze()
+    # stratified sample of the enumerated histories: every (signature set, ops) class, then seeded fill-up
+    limit = 240 if tier == "quick" else 3200
+    classes = {}
+    for h in histories:
+        k = (tuple(sorted(h["sigs"])), tuple((x["op"], x.get("attr")) for x in h["hist"]))
+        classes.setdefault(k, []).append(h)
+    keys = sorted(classes, key=str)
+    rng.shuffle(keys)
+    chosen = [rng.choice(classes[k]) for k in keys[:limit]]
+    events = []
+    for n, h in enumerate(chosen):
+        b = h["base"]
+        steps0 = base_steps(b["model"], (from_rat(b["ang"]["s"]), from_rat(b["ang"]["c"])), b["pdT"], b["geo"], b["axial"])
+        hs = [step_from_tla(x) for x in h["hist"]]
+        events.append(study_event(len(events), steps0, hs[:-1], hs[-1], form=n % 4))
+    n_lat = len(events)
+    # seeded histories beyond the model: other public queries, other objects in between, containers, coincidences, data base
+    B = [("clpt_donnell_bc1", ANG["cone"], True, "r2L", "Fc"), ("clpt_donnell_bc4", ANG["cyl"], False, "r1H", "array"),
+         ("fsdt_donnell_bc1", ANG["cone"], True, "r2L", "none"), ("clpt_sanders_bc2", ANG["cyl"], True, "r2L", "scalar")]
+    warm = [[dict(op="calc_fext", inc=F(1)), dict(op="uvw")], [dict(op="static"), dict(op="calc_kT")], dict(op="static"), dict(op="other", _model="clpt_donnell_bc2"),
+            dict(op="other", _model="clpt_donnell_bc1", _alphadeg=deg_of(F(5, 13), F(12, 13))), dict(op="lb")]
+    finals = [dict(op="calc_fext", inc=F(1, 2)), dict(op="static"), dict(op="rebuild"), dict(op="forces"), dict(op="forces")]
+    changes = [dict(op="none"), S("P", F(2)), S("thetaTdeg", F(45)),
+               dict(op="add_SPL", PL=F(7), pt=F(1, 2), thetadeg=F(180), increment=True),
+               dict(op="add_SPL", PL=F(7), pt=F(1), thetadeg=F(360), increment=False),
+               dict(op="add_force", x=F(0), thetadeg=F(90), F=[F(1), F(2), F(3)], increment=False),
+               dict(op="add_force", x=F(0), thetadeg=F(-45), F=[F(1), F(0), F(-3)], increment=True),
+               S("forcesInc", [dict(x=F(5, 2), thetadeg=F(270), F=[F(4), F(0), F(-1)]), FORCE1]),
+               S("L", F(4)), S("m1", 2), S("n2", 2)]
+    extra = 40 if tier == "quick" else 500
+    for k in range(extra):
+        b = B[k % len(B)]
+        st0 = base_steps(*b)
+        if k % 5 == 4:                      # coincidences: H = r2 (cylinder L = r2), m1 = n2, thetadeg 0 / 360, x = 0 / L
+            st0 = [s for s in st0 if s.get("attr") not in ("r1", "r2", "H", "L")] + [S("r2", F(4)), S("L", F(4))]
+        w = rng.choice(warm)
+        events.append(study_event(len(events), st0, (w if isinstance(w, list) else [w]) + [rng.choice(changes)], rng.choice(finals),
+                                  form=k % 4))
+    for name, ent in (db_entries() if tier != "quick" else rng.sample(db_entries(), 6)):
+        st0 = [S("m1", 2), S("m2", 1), S("n2", 1)]
+        events.append(study_event(len(events), st0, [dict(op="from_DB", entry=ent, _name=name)], dict(op="rebuild")))
+    n_study = len(events)
+    # get_size of every registered model family
+    from compmech.conecyl import modelDB
+    for name in sorted(modelDB.db):
+        for (m1, m2, n2) in [(1, 1, 1), (4, 3, 2), (2, 5, 7)]:
+            cc = new_cc("clpt_donnell_bc1", m1=m1, m2=m2, n2=n2)
+            cc.model = name
+            events.append(dict(id=len(events), kind="size", model=name, m1=m1, m2=m2, n2=n2, obs=int(cc.get_size())))
+    # SPLA to the end (a return of time.clock would make it raise: KF_C18_SPLAUsesTimeClock, listed as fixed)
+    for b in (B[0], ("clpt_donnell_bc3", ANG["cyl"], True, "r1H", "Fc")):
+        events.append(spla_event(len(events), base_steps(*b), [F(7), F(3), F(12)]))
+    add_selftests(events, [("study", lambda e: e["query"]["op"] == "calc_fext" and e["obs"]["raised"] == "no")])
+    verdicts, results, problems = validate_trace(
+        "c18-tro", "Trace_ShellObject", "CONSTANTS Tier = \"%s\"\nDev = {}\nTol = 38\nTolStatic = 30\nTolNorm = 44\n" % tier,
+        events, timeout=3000, nproc=8 if tier == "quick" else 16)
+    for res in results:
+        rep.add_tlc("Trace_ShellObject", res)
+    for p in problems:
+        rep.machinery(p)
+    if check_selftests(rep, events, verdicts, "Trace_ShellObject") != 1:
+        rep.machinery("binding self-test of Trace_ShellObject did not run")
+    census = {}
+    for e in events:
+        v = verdicts.get(e["id"])
+        if e.get("selftest") or not v:
+            continue
+        if e["kind"] in ("size", "spla"):
+            rep.nontrivial((e["kind"], e.get("model"), e.get("m1")))
+            census[e["kind"] + ":" + v[0]] = census.get(e["kind"] + ":" + v[0], 0) + 1
+            if v[0] != "ok":
+                rep.violation("%s: %s rejected: %s" % (e["kind"], {k: e[k] for k in e if k not in ("steps0",)}, sorted(map(str, v[1]))),
+                              dict(section="object", event=e))
+            continue
+        desc = [(s["op"], s.get("attr")) for s in e["steps"]] + [e["query"]["op"]]
+        rep.nontrivial(("study", str(desc), e["form"], str(e["steps0"][6:10])))
+        census[v[0]] = census.get(v[0], 0) + 1
+        if v[0] == "ok":
+            continue
+        text = ("fresh-object definition %s; history %s; then %s -> %s" %
+                ([(s["attr"]) for s in e["steps0"]][6:], desc[:-1], desc[-1],
+                 "raised " + e["obs"]["raised"] if e["obs"]["raised"] != "no" else "answer differs from a fresh identical object"))
+        if v[0] == "na":
+            continue
+        if v[0] == "kf":
+            for d in sorted(v[1]):
+                rep.known(d, text)
+        else:
+            rep.violation("object history: %s (judged %s)" % (text, sorted(map(str, v[1]))), dict(section="object", event=e))
+    rep.cov["traces_validated_against_impl"] += len(events)
+    rep.cov["evaluations"] += len(events)
+    rep.cov["object"] = dict(histories_enumerated=len(histories), history_classes=len(classes), replayed=n_lat,
+                             seeded=n_study - n_lat, verdict_census=census)
+    rep.sample({k: v for k, v in events[0].items() if not k.startswith("ku")})
+
+
+def spla_event(eid, steps0, PLs):
+    cc = new_cc("clpt_donnell_bc1", m1=1, m2=1, n2=1)
+    held = Held()
+    for s in steps0:
+        apply_step(cc, s, held)
+    obs = dict(raised="no", ncurves=0, stored=False, forces=[], forcesInc=[], Fcs=[], uTMs=[], c0s=[], incs=[])
+    try:
+        curves = cc.SPLA([float(v) for v in PLs], NLgeom=False)
+        obs.update(ncurves=len(curves), stored=cc.outputs.get("SPLA_curves") is curves,
+                   forces=[dy_list(f) for f in cc.forces], forcesInc=[dy_list(f) for f in cc.forces_inc],
+                   Fcs=[dy_list(c["Fcs"]) for c in curves], uTMs=[dy_list(c["uTMs"]) for c in curves],
+                   c0s=[dyadic(c["cs"][0][0]) for c in curves], incs=[dy_list(c["increments"]) for c in curves])
+    except Exception as ex:
+        obs["raised"] = type(ex).__name__
+    return dict(id=eid, kind="spla", steps0=[step_json(s) for s in steps0], PLs=[rat(v) for v in PLs], obs=obs)
+
+
+def corrupt_study(c):
+    c["query"]["inc"] = rat(from_rat(c["query"]["inc"]) + F(1, 4))
+
+
+# ----------------------------------------------------------------------------------------------------
 # binding self-test: a corrupted record must be rejected by the trace specification
 
 def undy(d):
@@ -776,6 +1261,8 @@ def corrupt(e):
         c["obs"]["H"] = bump(c["obs"]["H"])
     elif e["kind"] == "fext":
         c["inc"] = rat(from_rat(e["inc"]) + F(1, 4))
+    elif e["kind"] == "study":
+        corrupt_study(c)
     elif e["kind"] == "static":
         k = max(range(len(c["f"])), key=lambda i: abs(undy(c["f"][i])))
         c["f"][k] = [c["f"][k][0], c["f"][k][1], c["f"][k][2] + 1]
@@ -810,6 +1297,7 @@ def check_selftests(rep, events, verdicts, name):
 
 TRACE_OF = dict(partition=("Trace_ShellPartition", "CONSTANTS Tier = \"%s\"\nDev = {}\n"),
                 geometry=("Trace_ShellGeometry", "CONSTANTS Tier = \"%s\"\nDev = {}\nTol = 40\n"),
+                object=("Trace_ShellObject", "CONSTANTS Tier = \"%s\"\nDev = {}\nTol = 38\nTolStatic = 30\nTolNorm = 44\n"),
                 loads=("Trace_ShellLoads", "CONSTANTS Tier = \"%s\"\nDev = {}\nTol = 38\nTolStatic = 30\nTolNorm = 44\n"))
 
 
@@ -830,7 +1318,7 @@ def run(tier, seed, build):
         rep.assumptions.append("run stopped after the isolated exclude_dofs_matrix replays: the call crashed the interpreter")
         return rep.finish()
     sections = [("partition", lambda *a: partition_section(*a, prep=prep)), ("geometry", geometry_section),
-                ("loads", loads_section)]
+                ("loads", loads_section), ("object", object_section)]
 
     def one(k):
         name, fn = sections[k]
@@ -845,8 +1333,8 @@ def run(tier, seed, build):
     import concurrent.futures as cf
     real_stdout = sys.stdout
     with contextlib.redirect_stdout(io.StringIO()):
-        with cf.ThreadPoolExecutor(max_workers=3) as ex:
-            list(ex.map(one, range(3)))
+        with cf.ThreadPoolExecutor(max_workers=4) as ex:
+            list(ex.map(one, range(len(sections))))
     sys.stdout = real_stdout
     rep.cov["section_wall_s"] = timer
     rep.cov["observations"] = OBSERVED
@@ -863,8 +1351,14 @@ def run(tier, seed, build):
         "prescribed sets other than those the API flags produce ({2},{0,2},{1,2},{0,1,2}) are exercised by setting the public "
         "list excluded_dofs directly; pdLA=False is refused by the package (NotImplementedError) and the module says so",
         "axial line load and displacement control are alternatives (pdC=True cases carry no Nxxtop/Fc); tLAdeg = 0",
-        "re-definition of inputs after the first _rebuild (stale Nxxtop because of _load_rebuilt, r1 recomputed from r2) is "
-        "outside the quantifier of C18 (fresh objects, evaluation calls only)",
+        "object histories (ShellObject): a query after another query, after a change of one attribute, after calls on another "
+        "object is judged as the answer of a fresh identical object; stiffness data (k0uk/k0uu) of both objects is recorded, the "
+        "module decides which one a history uses; a call that raises inside a history is a refusal, not a verdict; histories "
+        "whose forces leave the quarter-turn lattice (x = pL/2 after a change of L) are counted as not applicable",
+        "a given Nxxtop ndarray is adopted by the object and its [0] / [2] are overwritten from Fc / MLA: not judged as a "
+        "modification of the caller's container; every other container handed over must come back unchanged",
+        "SPLA is run as it is (repaired upstream in c0ba97d); it completes only with Fc given and without pdC / fsdt pressure, "
+        "otherwise the module says where it stops and what it leaves behind",
         "k0 of identical shells is computed once by the package and shared through the public attributes k0/k0uk/k0uu; "
         "harness calls gc.freeze() so that the package's gc.collect() calls stay cheap",
         "kernels (.pyx) are the extensions loaded; fsdt pressure is refused by the package (NotImplementedError), as the module says"]
@@ -921,6 +1415,15 @@ def replay(path, build):
                          forcesInc=[fo(f) for f in e["forcesInc"]], P=fr(e["P"]), Pinc=fr(e["Pinc"]), T=fr(e["T"]), Tinc=fr(e["Tinc"]))
                 kuk = [[undy(x) for x in row] for row in e["kuk"]] if e["custom_kuk"] else None
                 new = load_event(0, d, fr(e["inc"]), kuk=kuk, observed=e["mode"] == "observed", pre=e["pre"])
+        elif e["kind"] == "study":
+            new = study_event(0, [step_unjson(x) for x in e["steps0"]], [step_unjson(x) for x in e["steps"]],
+                              step_unjson(e["query"]), form=e.get("form", 0))
+        elif e["kind"] == "spla":
+            new = spla_event(0, [step_unjson(x) for x in e["steps0"]], [from_rat(v) for v in e["PLs"]])
+        elif e["kind"] == "size":
+            cc = new_cc("clpt_donnell_bc1", m1=e["m1"], m2=e["m2"], n2=e["n2"])
+            cc.model = e["model"]
+            new = dict(e, id=0, obs=int(cc.get_size()))
         elif e["kind"] == "static":
             s_, c_ = min(PYTH, key=lambda sc: abs(deg_of(*sc) - e["alphadeg"]))
             new = static_event(0, e["model"], s_, c_, random.Random(0))
@@ -936,8 +1439,15 @@ def replay(path, build):
         return 2
     v = verdicts[0]
     print("replay of %s: verdict %s %s" % (path, v[0], v[1]))
-    if v[0] == "ok":
+    if v[0] in ("ok", "na"):
         return 0
+    if v[0] == "kf":
+        opened = [f["deviation"] for f in __import__("common").known_findings() if f["property"] == "C18" and f["status"] == "open"]
+        if all(d in opened for d in v[1]):
+            print("KNOWN-FINDING: property=C18 %s" % sorted(v[1]))
+            return 0
+        print("VIOLATION property=C18 replay=%s" % path)
+        return 1
     if v[0].startswith("kf:") and v[0][3:] in [f["deviation"] for f in __import__("common").known_findings()
                                                  if f["property"] == "C18" and f["status"] == "open"]:
         print("KNOWN-FINDING: property=C18 [%s]" % v[0][3:])
